@@ -72,6 +72,11 @@ class C18(core.Prop):
         if rng.random() < 0.2:
             # examples that are nothing but white space, empty strings, nulls (what the cleaning options are about)
             ex = list(ex) + [rng.choice(['   ', '\t', ' ', '  ', ' \t ', '', None]) for _ in range(rng.randint(1, 3))]
+        if rng.random() < 0.15 and ex:
+            # an example and the same text followed by a line break: two examples, and the expression of the first matches
+            # both ('$' also matches before a final line break), so expressions overlap
+            for s_ in rng.sample([e for e in ex if e], min(2, len([e for e in ex if e]))):
+                ex = list(ex) + [s_ + '\n'] * rng.randint(1, 3)
         opts = {}
         if rng.random() < 0.3:
             opts['strip'] = True
